@@ -194,7 +194,11 @@ func Run(r *fw.Run) {
 			c.Skip()
 		}
 		p := permFromChoices(c, n)
-		ruleless := n <= 4 && c.Choose(2, "conflicting policies: with rules | without any rule") == 1
+		shape := 0
+		if n <= 4 {
+			shape = c.Choose(3, "conflicting policies: with ingress rules | without any rule | one with ingress rules only, the other with egress rules only")
+		}
+		ruleless := shape == 1
 		for _, i := range p {
 			prio := 10 * (i + 1)
 			if i == 1 {
@@ -204,10 +208,13 @@ func Run(r *fw.Run) {
 			if ruleless && i <= 1 {
 				a = bare(a)
 			}
+			if shape == 2 && i == 1 {
+				a.Egress, a.Ingress = a.Ingress, nil // the two directions are evaluated separately: the priorities conflict all the same
+			}
 			infos = append(infos, wm.InfoANP(a))
 		}
 		infos = append(infos, after...)
-		return Case{Infos: infos, Expect: []string{"pol-00", "pol-01", "same priority"}, Desc: fmt.Sprintf("equal-priority n=%d order=%v surroundings=%s ruleless=%v", n, p, sn, ruleless)}
+		return Case{Infos: infos, Expect: []string{"pol-00", "pol-01", "same priority"}, Desc: fmt.Sprintf("equal-priority n=%d order=%v surroundings=%s shape=%d", n, p, sn, shape)}
 	}, eval)
 
 	// (ii) large n: every position pair over base orders
@@ -401,6 +408,10 @@ func Run(r *fw.Run) {
 		{{"p-a", map[string]string{"app": "a"}}, {"p-b", map[string]string{"app": "a", "extra": "1"}}},                                        // extra key
 		{{"p-a", map[string]string{"app": "a"}}, {"p-b", map[string]string{"app": "a"}}, {"p-c", map[string]string{"app": "a", "tier": "x"}}}, // third differs
 		{{"p-a", map[string]string{"app": "a"}}, {"p-b", map[string]string{}}},                                                                // no labels at all
+		// labels that controllers set per pod are labels too
+		{{"p-a", map[string]string{"app": "a", "statefulset.kubernetes.io/pod-name": "p-a"}}, {"p-b", map[string]string{"app": "a", "statefulset.kubernetes.io/pod-name": "p-b"}}},
+		{{"p-a", map[string]string{"app": "a", "apps.kubernetes.io/pod-index": "0"}}, {"p-b", map[string]string{"app": "a", "apps.kubernetes.io/pod-index": "1"}}},
+		{{"p-a", map[string]string{"app": "a", "batch.kubernetes.io/job-completion-index": "0"}}, {"p-b", map[string]string{"app": "a"}}},
 	}
 	fw.Explore(r, "owner-labels/orders", fw.Full, func(c *fw.Ctx) Case {
 		vi := c.Choose(len(variants)+1, "variant (last = negative control: same owner name in two namespaces)")
